@@ -48,6 +48,9 @@ func init() {
 	specs = append(specs, Spec{ID: "C13", Level: "exploration", MinDistinct: 50, Engines: []Engine{
 		{Name: "seq", Pkg: "./mon/c13", Procs: 1},
 	}})
+	specs = append(specs, Spec{ID: "C17", Level: "fault_enumeration", MinDistinct: 20, Engines: []Engine{
+		{Name: "seq", Pkg: "./mon/c17", Procs: 1},
+	}})
 	specs = append(specs, Spec{ID: "C18", Level: "exploration", MinDistinct: 50, Engines: []Engine{
 		{Name: "seq", Pkg: "./mon/c18", Procs: 1},
 		{Name: "file", Pkg: "./mon/c18", Env: []string{"VERIF_MODE=file"}},
